@@ -496,9 +496,10 @@ func (x *Exec) frameObls(cu *FuncUnit, con *Contract, final *State, ee *evalEnv)
 //   emits "<format fragment>" assert <spec expr>       holds whenever that call is executed
 func (x *Exec) emitObls(cu *FuncUnit, con *Contract) {
 	for _, cl := range con.Clauses {
-		if cl.Kind != "emits" {
+		if cl.Kind != "emits" && cl.Kind != "libarg" {
 			continue
 		}
+		isLib := cl.Kind == "libarg"
 		txt := strings.TrimSpace(cl.Text)
 		if !strings.HasPrefix(txt, "\"") && !strings.HasPrefix(txt, "`") {
 			panic(evalError{fmt.Sprintf("%s:%d: BINDING: emits needs a quoted format fragment", cl.File, cl.Line)})
@@ -528,8 +529,18 @@ func (x *Exec) emitObls(cu *FuncUnit, con *Contract) {
 		} else {
 			base += ".assert"
 		}
+		if isLib {
+			base = fmt.Sprintf("libarg:%s.arg%d", sanitize(frag), argN)
+			if argN < 0 {
+				base = fmt.Sprintf("libarg:%s.assert", sanitize(frag))
+			}
+		}
 		for _, es := range x.emitSites {
-			if !strings.Contains(es.Format, frag) {
+			if isLib {
+				if es.Format != "@call:"+frag {
+					continue
+				}
+			} else if strings.HasPrefix(es.Format, "@call:") || !strings.Contains(es.Format, frag) {
 				continue
 			}
 			found++
@@ -549,7 +560,11 @@ func (x *Exec) emitObls(cu *FuncUnit, con *Contract) {
 			x.st = sv
 		}
 		if found == 0 {
-			o := x.addObl("emits", base, cu.Decl.Pos(), "false", cl.Text+"   [no fmt.Sprintf / fmt.Printf call whose format contains this fragment: a literal where a hole is required?]", cl.Props, "0")
+			why := "   [no fmt.Sprintf / fmt.Printf call whose format contains this fragment: a literal where a hole is required?]"
+			if isLib {
+				why = "   [no call of this library function is executed]"
+			}
+			o := x.addObl("emits", base, cu.Decl.Pos(), "false", cl.Text+why, cl.Props, "0")
 			o.PC = []string{}
 		}
 	}
